@@ -57,3 +57,193 @@ def _(c):
     c.ensures('equal-needs-same-path-and-size',
               lambda s: z3.Implies(s.result, z3.And(s.self.tag == s.other.tag, s.self.path == s.other.path,
                                                     s.self.size == s.other.size)))
+
+
+# ---------------------------------------------------------------------------------------------------------------------------
+# A-seqsets: the facts about element sets of sequences that the library models assume as instances (lib.seqset_*_facts)
+# are proved here from the definition elems(s) = prefix_set(s, len s) -- by induction where needed.  The engine still adds
+# them as instances (it cannot call a lemma), but every instance is an instance of a formula proved below.
+
+from vp import spec as S
+from vp.lib import seq_elems
+
+SS_ = z3.StringSort()
+SEQ_ = z3.SeqSort(SS_)
+
+
+@contract('gemato/util.py', '<seqsets>', props=['C16', 'C01', 'C07', 'C20'])
+def _(c):
+    c.trusted = True
+    a, b, p, q = z3.Consts('a!q b!q p!q q!q', SEQ_)
+    x = z3.Const('x!q', SS_)
+
+    def elems_def(env, s):
+        """elems(s) is by definition the prefix set at full length"""
+        return S.prefix_set(env, s, z3.Length(s))
+
+    # (F) a fold over a ++ b does not look beyond a while k <= len(a)
+    c.induction('prefix-set-of-a-concatenation-within-the-first-part',
+                lambda env, k: z3.Implies(k <= z3.Length(a), S.prefix_set(env, z3.Concat(a, b), k) == S.prefix_set(env, a, k)))
+
+    # (C) ... and continues with b afterwards
+    def concat(env, j):
+        u = z3.Const('u!q', SS_)
+        lhs = S.prefix_set(env, z3.Concat(a, b), z3.Length(a) + j)
+        rhs_a = S.prefix_set(env, a, z3.Length(a))
+        rhs_b = S.prefix_set(env, b, j)
+        return z3.Implies(j <= z3.Length(b), z3.ForAll([u], z3.Select(lhs, u) == z3.Or(z3.Select(rhs_a, u), z3.Select(rhs_b, u))))
+    c.induction('prefix-set-of-a-concatenation-beyond-the-first-part', concat,
+                using=lambda env, j: [S.prefix_set(env, z3.Concat(a, b), z3.Length(a)) == S.prefix_set(env, a, z3.Length(a))])  # (F) at k = len a
+
+    # append: elems(a ++ [x]) = elems(a) + {x}     (from F at k = len a and one unfolding)
+    def append():
+        env = S.LemmaEnv()
+        ax = z3.Concat(a, z3.Unit(x))
+        f_inst = z3.Implies(z3.Length(a) <= z3.Length(a), S.prefix_set(env, ax, z3.Length(a)) == S.prefix_set(env, a, z3.Length(a)))
+        goal = elems_def(env, ax) == z3.Store(elems_def(env, a), x, z3.BoolVal(True))
+        return z3.Implies(z3.And(f_inst, *env.facts()), goal)
+    c.lemma('element-set-after-append', append)
+
+
+def _concat_instance(env, A, B):
+    """instance of lemma (C) at j = len(B): elems(A ++ B) = elems(A) + elems(B), pointwise"""
+    u = z3.Const('u!q', SS_)
+    lhs = S.prefix_set(env, z3.Concat(A, B), z3.Length(A) + z3.Length(B))
+    return z3.ForAll([u], z3.Select(lhs, u) == z3.Or(z3.Select(S.prefix_set(env, A, z3.Length(A)), u),
+                                                      z3.Select(S.prefix_set(env, B, z3.Length(B)), u)))
+
+
+@contract('gemato/util.py', '<seqsets-2>', props=['C16', 'C01', 'C07', 'C20'])
+def _(c):
+    c.trusted = True
+    p, q = z3.Consts('p!r q!r', SEQ_)
+    x = z3.Const('x!r', SS_)
+    u = z3.Const('u!r', SS_)
+
+    def remove():
+        # old = p ++ [x] ++ q, new = p ++ q:  elems(old) = elems(new) + {x}
+        env = S.LemmaEnv()
+        ux = z3.Unit(x)
+        old = z3.Concat(p, z3.Concat(ux, q))
+        new = z3.Concat(p, q)
+        hyps = [_concat_instance(env, p, q), _concat_instance(env, p, z3.Concat(ux, q)), _concat_instance(env, ux, q)]
+        e_old = S.prefix_set(env, old, z3.Length(p) + (1 + z3.Length(q)))
+        e_new = S.prefix_set(env, new, z3.Length(p) + z3.Length(q))
+        e_ux = S.prefix_set(env, ux, z3.IntVal(1))
+        hyps.append(z3.Length(z3.Concat(ux, q)) == 1 + z3.Length(q))
+        goal = z3.ForAll([u], z3.Select(e_old, u) == z3.Or(z3.Select(e_new, u), u == x))
+        return z3.Implies(z3.And(*(hyps + env.facts())), goal)
+    c.lemma('element-set-after-removing-one-occurrence', remove)
+
+    def member():
+        # x in s  <=>  elems(s)[x]   for s = p ++ [x] ++ q (the only way seq.contains of a unit holds) -- one direction:
+        env = S.LemmaEnv()
+        ux = z3.Unit(x)
+        s_ = z3.Concat(p, z3.Concat(ux, q))
+        hyps = [_concat_instance(env, p, z3.Concat(ux, q)), _concat_instance(env, ux, q),
+                z3.Length(z3.Concat(ux, q)) == 1 + z3.Length(q)]
+        e = S.prefix_set(env, s_, z3.Length(p) + (1 + z3.Length(q)))
+        S.prefix_set(env, ux, z3.IntVal(1))
+        return z3.Implies(z3.And(*(hyps + env.facts())), z3.Select(e, x))
+    c.lemma('an-element-of-the-sequence-is-in-its-element-set', member)
+
+
+# pairwise distinctness as a fold: DIST(s, k) = the first k elements are pairwise distinct; seq_distinct(s) is DIST(s, len s)
+DIST = S.Fold('seq_dist', z3.BoolSort(), init=lambda env, s: z3.BoolVal(True),
+              step=lambda env, acc, el, idx, s: z3.And(acc, z3.Not(z3.Select(S.prefix_set(env, s, idx), el))))
+
+
+def _dist(env, s, k):
+    return DIST(env, s, k, s)
+
+
+@contract('gemato/util.py', '<seqsets-3>', props=['C16', 'C01', 'C07', 'C20'])
+def _(c):
+    c.trusted = True
+    a, b, s_ = z3.Consts('a!d b!d s!d', SEQ_)
+    x = z3.Const('x!d', SS_)
+    k0 = z3.Int('k!d')
+    u = z3.Const('u!d', SS_)
+
+    # a distinct sequence has distinct prefixes
+    c.induction('prefixes-of-a-distinct-sequence-are-distinct',
+                lambda env, n: z3.Implies(z3.And(k0 >= 0, n >= k0, n <= z3.Length(s_), _dist(env, s_, n)), _dist(env, s_, k0)))
+
+    # hence the element at i is not among the first i   (the instance spec.distinct_at assumes)
+    def at():
+        env = S.LemmaEnv()
+        i = z3.Int('i!d')
+        n = z3.Length(s_)
+        mono = z3.Implies(z3.And(i + 1 >= 0, n >= i + 1, n <= z3.Length(s_), _dist(env, s_, n)), _dist(env, s_, i + 1))
+        goal = z3.Implies(z3.And(_dist(env, s_, n), i >= 0, i < n), z3.Not(z3.Select(S.prefix_set(env, s_, i), s_[i])))
+        return z3.Implies(z3.And(mono, *env.facts()), goal)
+    c.lemma('element-at-i-of-a-distinct-sequence-is-not-among-the-first-i', at)
+
+    # distinctness of a ++ b within the first part (frame), then append
+    def dist_frame(env, k):
+        fr = S.prefix_set(env, z3.Concat(a, b), k) == S.prefix_set(env, a, k)     # lemma (F)
+        return z3.Implies(k <= z3.Length(a), DIST(env, z3.Concat(a, b), k, z3.Concat(a, b)) == DIST(env, a, k, a))
+    c.induction('distinctness-of-a-concatenation-within-the-first-part', dist_frame,
+                using=lambda env, k: [z3.Implies(k <= z3.Length(a), S.prefix_set(env, z3.Concat(a, b), k) == S.prefix_set(env, a, k)),
+                                      z3.Implies(k + 1 <= z3.Length(a),
+                                                 S.prefix_set(env, z3.Concat(a, b), k + 1) == S.prefix_set(env, a, k + 1))])
+
+    def dist_append():
+        env = S.LemmaEnv()
+        ax = z3.Concat(a, z3.Unit(x))
+        n = z3.Length(a)
+        hyps = [DIST(env, ax, n, ax) == DIST(env, a, n, a), S.prefix_set(env, ax, n) == S.prefix_set(env, a, n)]
+        goal = DIST(env, ax, n + 1, ax) == z3.And(DIST(env, a, n, a), z3.Not(z3.Select(S.prefix_set(env, a, n), x)))
+        return z3.Implies(z3.And(*(hyps + env.facts())), goal)
+    c.lemma('distinctness-after-append', dist_append)
+
+
+def _c_inst(env, A, B, j):
+    """instance of lemma (C): prefix_set(A ++ B, len A + j) = elems(A) + prefix_set(B, j), pointwise, for j <= len B"""
+    u = z3.Const('u!q', SS_)
+    lhs = S.prefix_set(env, z3.Concat(A, B), z3.Length(A) + j)
+    return z3.Implies(z3.And(j >= 0, j <= z3.Length(B)),
+                      z3.ForAll([u], z3.Select(lhs, u) == z3.Or(z3.Select(S.prefix_set(env, A, z3.Length(A)), u),
+                                                                z3.Select(S.prefix_set(env, B, j), u))))
+
+
+def _disjoint(env, A, B, j):
+    u = z3.Const('u!j', SS_)
+    return z3.ForAll([u], z3.Implies(z3.Select(S.prefix_set(env, B, j), u), z3.Not(z3.Select(S.prefix_set(env, A, z3.Length(A)), u))))
+
+
+def _dc_inst(env, A, B, j):
+    AB = z3.Concat(A, B)
+    return z3.Implies(z3.And(j >= 0, j <= z3.Length(B)),
+                      DIST(env, AB, z3.Length(A) + j, AB) == z3.And(DIST(env, A, z3.Length(A), A), DIST(env, B, j, B), _disjoint(env, A, B, j)))
+
+
+@contract('gemato/util.py', '<seqsets-4>', props=['C16', 'C01', 'C07', 'C20'])
+def _(c):
+    c.trusted = True
+    A, B, p, q = z3.Consts('A!e B!e p!e q!e', SEQ_)
+    x = z3.Const('x!e', SS_)
+
+    # (DC) a concatenation is distinct iff both parts are and they share no element
+    AB = z3.Concat(A, B)
+    c.induction('distinctness-of-a-concatenation', lambda env, j: _dc_inst(env, A, B, j),
+                using=lambda env, j: [_c_inst(env, A, B, j), _c_inst(env, A, B, j + 1),
+                                      DIST(env, AB, z3.Length(A), AB) == DIST(env, A, z3.Length(A), A),      # frame at k = len A
+                                      S.prefix_set(env, AB, z3.Length(A)) == S.prefix_set(env, A, z3.Length(A))])
+
+    def dist_remove():
+        # old = p ++ [x] ++ q distinct  =>  new = p ++ q distinct and x not in new
+        env = S.LemmaEnv()
+        ux = z3.Unit(x)
+        xq = z3.Concat(ux, q)
+        old = z3.Concat(p, xq)
+        new = z3.Concat(p, q)
+        lq, lp = z3.Length(q), z3.Length(p)
+        hyps = [_dc_inst(env, p, xq, 1 + lq), _dc_inst(env, ux, q, lq), _dc_inst(env, p, q, lq),
+                _c_inst(env, ux, q, lq), _c_inst(env, p, q, lq), z3.Length(xq) == 1 + lq]
+        S.prefix_set(env, ux, z3.IntVal(1))
+        DIST(env, ux, z3.IntVal(1), ux)
+        goal = z3.Implies(DIST(env, old, lp + (1 + lq), old),
+                          z3.And(DIST(env, new, lp + lq, new), z3.Not(z3.Select(S.prefix_set(env, new, lp + lq), x))))
+        return z3.Implies(z3.And(*(hyps + env.facts())), goal)
+    c.lemma('distinctness-after-removing-an-element', dist_remove)
